@@ -119,3 +119,17 @@ class Limited:
         if n == self.cap + 1:
             print("  (further violations with signature %s are counted, not written out)" % signature)
         return True
+
+
+def worker_pids(pool):
+    return [p.pid for p in getattr(pool, "_pool", [])]
+
+
+def cleanup_workers(pids):
+    """scratch directories of pool workers that were terminated in the middle of a task (vlib.scratch_root names
+    them verif-<pid>-*)"""
+    import glob
+    for pid in pids:
+        for base in ("/dev/shm", "/var/tmp"):
+            for d in glob.glob(os.path.join(base, "verif-%d-*" % pid)):
+                shutil.rmtree(d, ignore_errors=True)
